@@ -154,6 +154,7 @@ class Stats:
         self.keys = set()
         self.labels = {}
         self.discarded = {}
+        self.discard_samples = []
         self.known = {}
         self.known_examples = {}
         self.inproc_only = 0
@@ -225,6 +226,8 @@ def _worker(prop_id, tier, seed, k, K, repo, conn, replay_case=None):
                 stats.explicit += 1
             if v.discard:
                 stats.discarded[v.discard] = stats.discarded.get(v.discard, 0) + 1
+                if v.discard in ("crash", "hang") and len(stats.discard_samples) < 3:
+                    stats.discard_samples.append({"discard": v.discard, "case": _jsonable(case)})
             for l in v.labels:
                 stats.labels[l] = stats.labels.get(l, 0) + 1
             if v.nontrivial and v.key is not None and not v.discard:
@@ -429,6 +432,7 @@ def run_check(prop_id, tier, seed, repo, replay=None):
             tot.known_examples.setdefault(kk, vv)
         tot.inproc_only += r["inproc_only"]
         tot.samples += r["samples"]
+        tot.discard_samples += r.get("discard_samples", [])
         tot.budget_exhausted |= r["budget_exhausted"]
         for kk, vv in r["runner"].items():
             tot.runner[kk] = tot.runner.get(kk, 0) + vv
@@ -509,6 +513,7 @@ def run_check(prop_id, tier, seed, repo, replay=None):
         "enumerated_cases": tot.explicit,
         "labels": dict(sorted(tot.labels.items())),
         "discarded": tot.discarded,
+        "discard_samples": tot.discard_samples[:6],
         "known_findings_hit": tot.known,
         "known_finding_witnesses_reproduced": sorted(set(tot.witness_ok)),
         "stale_known_finding": sorted(set(tot.stale)),
